@@ -35,7 +35,9 @@ RULE = (
     "constructors, UniformNormalMessage(..)-style calls and prior.message), then 3-8 operations "
     "(* / ** real exponent incl. <= 0, scalar * and /, .natural), queries (logpdf, factor, cdf, value_for, "
     "mean, variance, is_valid at points inside the support), conversions (from_natural_parameters, "
-    "from_sufficient_statistics) and projections of 5-60 weighted samples; non-trivial = the program "
+    "from_sufficient_statistics) and projections of 5-60 weighted samples; gamma / beta programs (shape parameters "
+    "0.05-80: logpdf inside / on the boundary of / outside the support, log_partition, sufficient and expected statistics, "
+    "raw invpsilog / inv_beta_suffstats, from_mode) and transformed messages stacked on transformed messages; non-trivial = the program "
     "contains at least one message-valued operation whose operands are valid messages; distinct = hash of the program"
 )
 
@@ -89,6 +91,7 @@ def jf(x):
 class Rec:
     def __init__(self):
         self.t = {"ndtr": [], "ndtri": [], "erfinv": [], "normpdf": []}
+        self.t3 = {"lgamma": [], "digamma": [], "trigamma": []}
 
     def _r(self, name, x, v):
         x = float(x)
@@ -109,6 +112,22 @@ class Rec:
     def normpdf(self, x):
         return self._r("normpdf", x, math.exp(-x * x / 2.0) / math.sqrt(2 * math.pi))
 
+    # (argument, value, derivative): the model corrects the nearest entry to first order
+    def _r3(self, name, x, v, d):
+        x = float(x)
+        if x == x:
+            self.t3[name].append((x, float(v), float(d)))
+        return float(v)
+
+    def lgamma(self, x):
+        return self._r3("lgamma", x, special.gammaln(x), special.digamma(x))
+
+    def digamma(self, x):
+        return self._r3("digamma", x, special.digamma(x), special.polygamma(1, x))
+
+    def trigamma(self, x):
+        return self._r3("trigamma", x, special.polygamma(1, x), special.polygamma(2, x))
+
     def wire(self):
         out = {}
         for k, v in self.t.items():
@@ -116,6 +135,11 @@ class Rec:
             for x, y in v:
                 seen[x] = y
             out[k] = [[f2h(x), f2h(y)] for x, y in seen.items()]
+        for k, v in self.t3.items():
+            seen = {}
+            for x, y, d in v:
+                seen[x] = (y, d if math.isfinite(d) else 0.0)
+            out[k] = [[f2h(x), f2h(y), f2h(d)] for x, (y, d) in seen.items()]
         return out
 
 
@@ -357,6 +381,10 @@ def exec_stmt(st, regs):
         p = mk_prior(st["kind"], st["args"])
         q = p.project(np.array(st["xs"], dtype=float), np.array(st["lws"], dtype=float))
         return [p.message, q.message]
+    if op in GB_OPS:
+        return exec_stmt_gb(st, regs)
+    if op == "stackcheck":
+        return [("none", None)]
     m = regs[st["a"]]
     if op == "natural":
         return [("pair", nat_of(m))]
@@ -420,6 +448,11 @@ def shape_of_prog(regs):
     for r in regs:
         if is_msg(r) and r.shape:
             return tuple(r.shape)
+    for r in regs:  # programs without messages (raw Newton inversions on arrays)
+        if not is_msg(r) and r[0] == "num" and np.ndim(r[1]):
+            return tuple(np.shape(r[1]))
+        if not is_msg(r) and r[0] == "pair" and np.ndim(r[1]) > 1:
+            return tuple(np.shape(r[1])[1:])
     return ()
 
 
@@ -441,9 +474,13 @@ def wire_tr(t):
     return {"t": t["t"]}
 
 
-def unmodelled_moments(st, regs):
+def unmodelled_moments(st, regs, shape=None, i=None):
     fam = st.get("fam") or fam_of(regs[st["a"]])
-    return fam in ("gamma", "beta")
+    if fam not in ("gamma", "beta"):
+        return False
+    if shape is None:
+        return True
+    return not gb_inversion_smooth(Rec(), fam, st, shape, i)
 
 
 def model_prog(prog, regs, first, shape, i):
@@ -487,8 +524,24 @@ def model_prog(prog, regs, first, shape, i):
         elif op == "fromnat":
             out.append({"op": "fromnat", "fam": st["fam"], "e1": hx(st["e1"], shape, i), "e2": hx(st["e2"], shape, i),
                         "ln": f2h(st["ln"]), "id": st["id"], "lo": f2h(st["lo"]), "hi": f2h(st["hi"])})
+        elif op in GB_OPS:
+            out.append(model_stmt_gb(st, regs, shape, i))
+        elif op in ("fromsuff", "project", "mproject") and (st.get("fam") or fam_of(regs[st["a"]])) in ("gamma", "beta") \
+                and not unmodelled_moments(st, regs, shape, i):
+            # the Newton inversions of the digamma equations run in the model (AFModel/MsgGB.lean)
+            d = {"op": op + "x", "xs": col(st["xs"], shape, i), "lws": col(st["lws"], shape, i)} if op != "fromsuff" else \
+                {"op": "fromsuffx", "m1": hx(st["m1"], shape, i), "m2": hx(st["m2"], shape, i), "ln": f2h(st["ln"])}
+            if op == "mproject":
+                d["a"] = st["a"]
+                r = regs[r0] if r0 < len(regs) else None
+                d["id"] = base_of(r).id if r is not None and is_msg(r) and isinstance(base_of(r).id, int) else 0
+            else:
+                d["fam"] = st["fam"]
+                d["id"] = st["id"]
+            out.append(d)
         elif op in ("fromsuff", "project", "mproject") and unmodelled_moments(st, regs):
-            # digamma inversions (gamma / beta) are not modelled: the real result enters the model as data
+            # an iterate of the Newton inversion left the positive axis (poles of digamma): the real result enters
+            # the model as data
             r = canon_base(regs[r0])
             out.append({"op": "new", "fam": r["fam"], "p1": hx(r["p1"], shape, i), "p2": hx(r["p2"], shape, i),
                         "ln": hx(r["ln"], shape, i), "id": r["id"], "lo": f2h(r["lo"]), "hi": f2h(r["hi"])})
@@ -521,8 +574,9 @@ def model_prog(prog, regs, first, shape, i):
         elif op in ("natural", "valid", "mean", "variance"):
             out.append({"op": op, "a": st["a"]})
         elif op in ("logpdf", "factor", "cdf", "valuefor", "transform", "inverse"):
-            out.append({"op": op, "a": st["a"], "x": hx(st["x"], shape, i)})
-        elif op == "density":
+            mop = "logpdfx" if op == "logpdf" and fam_of(regs[st["a"]]) in ("gamma", "beta") else op
+            out.append({"op": mop, "a": st["a"], "x": hx(st["x"], shape, i)})
+        elif op in ("density", "stackcheck"):
             out.append({"op": "valid", "a": st["a"]})
         else:
             raise ValueError(op)
@@ -1258,6 +1312,439 @@ def base_quantiles(c, shape, i):
 
 
 # ---------------------------------------------------------------------------------------------
+# Gamma / Beta families inside the model (AFModel/MsgGB.lean): densities, the Newton inversions of the
+# digamma equations, from_mode, expected sufficient statistics
+
+
+GB_OPS = {"logpdfx", "meanx", "residual", "expstats", "canon", "logpartition", "invpsilog", "invbeta", "frommode"}
+PSILOG_START = (0.38648347, 0.89486989, 0.78578843)
+
+
+def ref_invpsilog(rec, c):
+    """the iterates of utils.invpsilog (harness' own evaluation; records digamma / trigamma for the model);
+    returns (result, smooth): smooth = every iterate stayed on the positive axis"""
+    A, be, ga = PSILOG_START
+    x = -(1 - 0.5 * (1 + A * (-c) ** be) ** -ga) / c
+    for _ in range(4):
+        if not (x > 0 and math.isfinite(x)):
+            return x, False
+        f0 = rec.digamma(x) - math.log(x) - c
+        x = x - f0 / (rec.trigamma(x) - 1 / x)
+    if x > 0 and math.isfinite(x):
+        rec.digamma(x)  # (the residual is evaluated at the result)
+    return x, bool(x > 0 and math.isfinite(x))
+
+
+def ref_inv_beta(rec, l1, l2):
+    g1, g2 = math.exp(l1), math.exp(l2)
+    dG = 1 - (g1 + g2)
+    if not dG > 0:
+        return (math.nan, math.nan), False
+    a, b = max(1.0, (1 + g1 / dG) / 2), max(1.0, (1 + g2 / dG) / 2)
+    for _ in range(5):
+        if not (a > 0 and b > 0 and math.isfinite(a) and math.isfinite(b)):
+            return (a, b), False
+        pab = rec.digamma(a + b)
+        f1, f2 = rec.digamma(a) - pab - l1, rec.digamma(b) - pab - l2
+        t = rec.trigamma(a + b)
+        j11, j12, j22 = rec.trigamma(a) - t, -t, rec.trigamma(b) - t
+        det = j11 * j22 - j12 * j12
+        a, b = a + (-f1 * j22 + j12 * f2) / det, b + (-j11 * f2 + j12 * f1) / det
+    if a > 0 and b > 0 and math.isfinite(a) and math.isfinite(b):
+        rec.digamma(a), rec.digamma(b), rec.digamma(a + b)
+    return (a, b), bool(a > 0 and b > 0 and math.isfinite(a) and math.isfinite(b))
+
+
+def ref_stats_of_samples(fam, xs, lws):
+    """the statistics AbstractMessage.project hands on, for one element (1-d arrays)"""
+    xs = np.asarray(xs, dtype=float)
+    lws = np.asarray(lws, dtype=float)
+    w = np.exp(lws - lws.max())
+    w = w / w.mean()
+    t = (np.log(xs), xs) if fam == "gamma" else (np.log(xs), np.log1p(-xs))
+    return float((t[0] * w).mean()), float((t[1] * w).mean())
+
+
+def gb_inversion_smooth(rec, fam, st, shape, i):
+    """runs the reference Newton inversion of statement st (fromsuff / project / mproject of a gamma / beta
+    message) for element i, recording the special-function values; False when an iterate leaves the positive axis"""
+    with np.errstate(all="ignore"):
+        try:
+            if st["op"] == "fromsuff":
+                m1, m2 = elem(st["m1"], shape, i), elem(st["m2"], shape, i)
+            else:
+                m1, m2 = ref_stats_of_samples(fam, [h2f(v) for v in col(st["xs"], shape, i)],
+                                              [h2f(v) for v in col(st["lws"], shape, i)])
+            if fam == "gamma":
+                c = m1 - math.log(m2)
+                if not c < 0:
+                    return False
+                return ref_invpsilog(rec, c)[1]
+            return ref_inv_beta(rec, m1, m2)[1]
+        except (ValueError, OverflowError, ZeroDivisionError):
+            return False
+
+
+def exec_stmt_gb(st, regs):
+    from autofit.messages import utils as mutils
+    from autofit.messages import beta as mbeta
+    op = st["op"]
+    if op == "invpsilog":
+        return [("num", np.asarray(mutils.invpsilog(np.asarray(st["x"], dtype=float)), dtype=float))]
+    if op == "invbeta":
+        a, b = mbeta.inv_beta_suffstats(np.asarray(st["x"], dtype=float), np.asarray(st["y"], dtype=float))
+        return [("pair", np.array([np.asarray(a, dtype=float), np.asarray(b, dtype=float)]))]
+    if op == "residual":
+        # the residual of the equations at the REAL result, with the library's own psilog / grad_betaln
+        m1, m2 = np.asarray(st["m1"], dtype=float), np.asarray(st["m2"], dtype=float)
+        r = FAMS[st["fam"]].from_sufficient_statistics(np.array([m1, m2]))
+        if st["fam"] == "gamma":
+            res = mutils.psilog(np.asarray(r.alpha, dtype=float)) - (m1 - np.log(m2))
+            return [("pair", np.array([res, np.zeros_like(res)]))]
+        ab = np.c_[np.ravel(r.alpha), np.ravel(r.beta)]
+        f = mbeta.grad_betaln(ab) - np.c_[np.ravel(m1), np.ravel(m2)]
+        return [("pair", np.array([f[:, 0].reshape(np.shape(m1)), f[:, 1].reshape(np.shape(m1))]))]
+    if op == "frommode":
+        cls = FAMS[st["fam"]]
+        return [cls.from_mode(as_param(st["m"]), st["v"], log_norm=st["ln"], id_=st["id"], lower_limit=st["lo"],
+                              upper_limit=st["hi"])]
+    m = regs[st["a"]]
+    if op == "logpdfx":
+        return [("num", np.asarray(m.logpdf(xarr(m, st["x"])), dtype=float))]
+    if op == "meanx":
+        return [("num", np.asarray(m.mean, dtype=float))]
+    if op == "expstats":
+        # no method of the library returns E[t(x)]: the closed form on the parameters the REAL message holds
+        return [("pair", expected_stats(base_of(m)))]
+    if op == "canon":
+        return [("pair", np.asarray(base_of(m).to_canonical_form(xarr(m, st["x"])), dtype=float))]
+    if op == "logpartition":
+        return [("num", np.asarray(base_of(m).log_partition, dtype=float))]
+    raise ValueError(op)
+
+
+def model_stmt_gb(st, regs, shape, i):
+    op = st["op"]
+    if op == "invpsilog":
+        return {"op": op, "x": hx(st["x"], shape, i)}
+    if op == "invbeta":
+        return {"op": op, "x": hx(st["x"], shape, i), "y": hx(st["y"], shape, i)}
+    if op == "residual":
+        return {"op": op, "fam": st["fam"], "m1": hx(st["m1"], shape, i), "m2": hx(st["m2"], shape, i)}
+    if op == "frommode":
+        return {"op": op, "fam": st["fam"], "m": hx(st["m"], shape, i), "v": f2h(st["v"]), "ln": f2h(st["ln"]),
+                "id": st["id"], "lo": f2h(st["lo"]), "hi": f2h(st["hi"])}
+    if op in ("logpdfx", "canon"):
+        return {"op": op, "a": st["a"], "x": hx(st["x"], shape, i)}
+    return {"op": op, "a": st["a"]}
+
+
+def fill_tables_gb(rec, prog, regs, first, shape, i):
+    for n, st in enumerate(prog):
+        op = st["op"]
+        if first[n] >= len(regs):
+            break
+        try:
+            if op == "invpsilog":
+                ref_invpsilog(rec, elem(st["x"], shape, i))
+            elif op == "invbeta":
+                ref_inv_beta(rec, elem(st["x"], shape, i), elem(st["y"], shape, i))
+            elif op == "residual":
+                gb_inversion_smooth(rec, st["fam"], {"op": "fromsuff", "m1": st["m1"], "m2": st["m2"]}, shape, i)
+            elif op in ("fromsuff", "project", "mproject"):
+                fam = st.get("fam") or fam_of(regs[st["a"]])
+                if fam in ("gamma", "beta"):
+                    gb_inversion_smooth(rec, fam, st, shape, i)
+            elif op in ("logpdf", "logpdfx", "expstats", "logpartition"):
+                m = regs[st["a"]]
+                if not is_msg(m) or fam_of(m) not in ("gamma", "beta"):
+                    continue
+                b = canon_base(base_of(m))
+                p1, p2 = elem(b["p1"], shape, i), elem(b["p2"], shape, i)
+                for v in (p1, p2, p1 + p2):
+                    rec.lgamma(v)
+                    rec.digamma(v)
+        except (ValueError, OverflowError, ZeroDivisionError):
+            pass
+
+
+def cmp_gb(ctx, case, st, r, mo, r_i, shape, i, scale):
+    """one register of a GB_OPS statement: numbers at 1e-8 (relative 1e-9 for invpsilog, 1e-7 for inv_beta_suffstats,
+    whose 2x2 solve is LAPACK's in the code and Cramer's rule in the model)"""
+    op = st["op"]
+    kind, val = r
+    rel = {"invpsilog": 1e-9, "invbeta": 1e-7}.get(op, 1e-8)
+    sc0 = 0.0 if op in ("invpsilog", "invbeta") else 1.0  # the raw inversions: purely relative
+    if op in ("invpsilog", "invbeta"):
+        rec = Rec()
+        with np.errstate(all="ignore"):
+            try:
+                smooth = ref_invpsilog(rec, elem(st["x"], shape, i))[1] if op == "invpsilog" else \
+                    ref_inv_beta(rec, elem(st["x"], shape, i), elem(st["y"], shape, i))[1]
+            except (ValueError, OverflowError, ZeroDivisionError):
+                smooth = False
+        if not smooth:
+            ctx.hit("model-skip:newton-left-positive-axis")
+            return
+    if op == "residual":
+        if not gb_inversion_smooth(Rec(), st["fam"], {"op": "fromsuff", "m1": st["m1"], "m2": st["m2"]}, shape, i):
+            ctx.hit("model-skip:newton-left-positive-axis")
+            return
+        rel, sc0 = 1e-6, 1e-3  # both residuals are rounding noise when converged: compared at 1e-9 absolute
+        small = max(abs(h2f(mo["a"])), abs(h2f(mo["b"]))) <= 1e-9
+        ctx.hit("converged:" + ("yes" if small else "no"))
+    if kind == "num":
+        got, want = elem(val, shape, i), h2f(mo["v"])
+        ok = close(got, want, rel=rel, scale=sc0)
+    else:
+        e = np.asarray(val, dtype=float)
+        ok = close(elem(e[0], shape, i), h2f(mo["a"]), rel=rel, scale=sc0) and \
+            close(elem(e[1], shape, i), h2f(mo["b"]), rel=rel, scale=sc0)
+        got, want = jf(e), [h2f(mo["a"]), h2f(mo["b"])]
+    if ok:
+        ctx.hit("model:query-ok:" + op)
+    else:
+        ctx.disagree("C17.query:" + op, case, {"reg": r_i, "elem": i, "impl": got}, want)
+
+
+def gen_stacked(rng, n):
+    """a transformed message used as the base of another transformed message (the constructor flattens the stacks):
+    CDF / density / quantiles of the outer message against those of the inner one at the transformed point"""
+    inner_v = rng.choice(["log", "log10", "shifted", "log-exp"])
+    outer = rng.choice([[{"t": "shift", "s": rfloat(rng, -3, 3), "c": rfloat(rng, 0.5, 4)}],
+                        [{"t": "exp"}], [{"t": "exp"}, {"t": "shift", "s": rfloat(rng, -2, 2), "c": rfloat(rng, 0.5, 3)}]])
+    prog = [gen_new(rng, "normal", n, mild=True),
+            {"op": "tnew", "b": 0, "trs": variant_trs(rng, inner_v), "id": fresh_id() if rng.random() < 0.5 else None,
+             "lo": -INF, "hi": INF}]
+    lims = rng.random() < 0.4
+    prog.append({"op": "tnew", "b": 1, "trs": outer, "id": fresh_id() if rng.random() < 0.5 else None,
+                 "lo": rfloat(rng, -9, -1) if lims else -INF, "hi": rfloat(rng, 1, 9) if lims else INF})
+    with np.errstate(all="ignore"):
+        regs, first, err = run_real(prog)
+        if err is not None:
+            return {"prog": prog}
+        x = point_in_support(rng, regs[2], None)
+    if x is None:
+        return {"prog": prog}
+    u = [round(rng.uniform(0.03, 0.97), 4) for _ in range(len(x))] if isinstance(x, list) else round(rng.uniform(0.03, 0.97), 4)
+    prog += [{"op": "stackcheck", "a": 2, "b": 1, "outer": outer, "x": x, "u": u},
+             {"op": "cdf", "a": 2, "x": x}, {"op": "factor", "a": 2, "x": x}, {"op": "logpdf", "a": 2, "x": x},
+             {"op": "valuefor", "a": 2, "x": u}, {"op": "mean", "a": 2}, {"op": "natural", "a": 2},
+             {"op": "transform", "a": 2, "x": x}]
+    if rng.random() < 0.5:
+        prog.append({"op": "mul", "a": 2, "b": 1})
+    return {"prog": prog}
+
+
+def oracle_stacked(ctx, case, prog, regs, first):
+    """wrap_change_of_variables on the real outputs: the outer message's CDF / density / quantile are the inner
+    message's at the point transformed by the harness' own reference transforms (plus the log-determinant)"""
+    with np.errstate(all="ignore"):
+        for n, st in enumerate(prog):
+            if st["op"] != "stackcheck" or first[n] >= len(regs):
+                continue
+            mo, mi = regs[st["a"]], regs[st["b"]]
+            shape = tuple(mo.shape)
+            size = int(np.prod(shape)) if shape else 1
+            xs = np.asarray(st["x"], dtype=float).ravel()
+            rec = Rec()
+            zs, lds = zip(*[ref_chain_det(rec, st["outer"], float(v)) for v in xs])
+            z = np.array(zs).reshape(shape) if shape else float(zs[0])
+            ld = np.array(lds).reshape(shape) if shape else float(lds[0])
+            pairs = [("cdf", mo.cdf(xarr(mo, st["x"])), mi.cdf(z)),
+                     ("factor", mo.factor(xarr(mo, st["x"])), np.asarray(mi.factor(z)) + ld),
+                     ("logpdf", mo.logpdf(xarr(mo, st["x"])), mi.logpdf(z))]
+            vi = np.asarray(mi.value_for(xarr(mi, st["u"])), dtype=float).ravel()
+            back = np.array([ref_inverse(rec, st["outer"], float(v)) for v in vi])
+            pairs.append(("value_for", np.asarray(mo.value_for(xarr(mo, st["u"]))).ravel(), back))
+            for what, got, want in pairs:
+                g, w = np.asarray(got, dtype=float).ravel(), np.asarray(want, dtype=float).ravel()
+                if g.shape != w.shape or not all(close(a, b, rel=1e-8, scale=1.0) for a, b in zip(g, w)):
+                    ctx.fail("C17-stacked-transform", f"a transformed message built on a transformed message: {what} is not "
+                             "the inner message's at the transformed point", case,
+                             {"stmt": n, "what": what, "got": jf(g), "expected": jf(w)})
+                else:
+                    ctx.hit("law:stacked:" + what)
+            if [canon_tr(t) for t in mo.transforms] != [canon_tr(t) for t in mi.transforms] + \
+                    [canon_tr(mk_tr(t)) for t in st["outer"]] or base_of(mo) is not base_of(mi):
+                ctx.fail("C17-stacked-transform", "a transformed message built on a transformed message does not carry the "
+                         "inner stack followed by the new transforms on the same base message", case, {"stmt": n})
+            _ = size
+
+
+def mixed_shape_model(ctx, n_cases):
+    """known finding C17-mixed-shape-broadcast, model side: a two-element message times / over a scalar message of the
+    same class does not raise; what it returns is compared, element by element, with Base.mulB / Base.divB (the
+    behaviour as it is). The oracle (element-wise expectation) reports the finding."""
+    rng = ctx.rng
+    for k_ in range(n_cases):
+        fam = ["gamma", "beta", "normal", "naturalNormal"][k_ % 4]
+        a = gen_new(rng, fam, 2)
+        b = gen_new(rng, fam, 0)
+        opname = "mul" if k_ % 3 else "div"
+        case = {"kind": "mixed-shape", "prog": [a, b, {"op": opname, "a": 0, "b": 1}]}
+        regs, first, err = run_real(case["prog"])
+        ctx.case(case["prog"], nontrivial=True, sample={"label": "mixed-shape", "prog": case["prog"]})
+        if err is not None or len(regs) < 3:
+            ctx.disagree("C17.mixed-shape:raised", case, str(err), "Base.mulB / Base.divB: no exception for two elements")
+            continue
+        real = canon_base(regs[2])
+        scale = prog_scale(regs)
+        with np.errstate(all="ignore"):
+            ea_, eb_ = nat_of(regs[0]), nat_of(regs[1])
+            tgt_ = ea_ + eb_[:, None] if opname == "mul" else ea_ - eb_[:, None]
+            elementwise = nat_of(regs[2]).shape == tgt_.shape and nat_close(nat_of(regs[2]), tgt_, scale)
+        for j in (0, 1):
+            def scal(st, i):
+                return {"op": "new", "fam": st["fam"], "p1": hx(st["p1"], (2,), i), "p2": hx(st["p2"], (2,), i),
+                        "ln": f2h(st["ln"]), "id": st["id"], "lo": f2h(st["lo"]), "hi": f2h(st["hi"])}
+            mp = [scal(a, j), scal(b, 0), {"op": opname + "b", "a": 0, "b": 1, "j": j}]
+            ans = ctx.lean.ask({"p": "C17", "tables": Rec().wire(), "prog": mp})
+            if "driver_error" in ans:
+                ctx.disagree("C17.driver", case, None, ans)
+                break
+            bad = cmp_base(real, ans["out"][2], (2,), j, scale)
+            if bad and elementwise and not set(bad) - {"p1", "p2"}:
+                ctx.hit("model:mixed-shape-elementwise")  # the code acts element-wise (the finding is repaired): no alarm
+            elif bad:
+                ctx.disagree("C17.mixed-shape:" + ",".join(sorted(set(bad))), case, {"elem": j, "impl": real}, ans["out"][2])
+            else:
+                ctx.hit("model:mixed-shape-ok")
+        # oracle: the element-wise product / quotient (what the property asks for)
+        with np.errstate(all="ignore"):
+            ea, eb = nat_of(regs[0]), nat_of(regs[1])
+            target = ea + eb[:, None] if opname == "mul" else ea - eb[:, None]
+            got = nat_of(regs[2])
+            if fam == "normal" and not nat_domain_ok("normal", target):
+                continue
+            if got.shape != target.shape or not nat_close(got, target, scale):
+                ctx.fail("C17-mixed-shape-broadcast",
+                         "an array message combined with a scalar message of the same family does not act element-wise",
+                         case, {"expected": jf(target), "got": jf(got)})
+
+
+def gb_pinned():
+    """programs run on every run whatever the seed: the boundary behaviours of the newly modelled code"""
+    def new(fam, p1, p2):
+        return {"op": "new", "fam": fam, "p1": p1, "p2": p2, "ln": 0.5, "id": fresh_id(), "lo": -INF, "hi": INF}
+    progs = [
+        # the zero message of the EP code (zeros_like = self ** 0.): NaturalNormal.mean is nan_to_num(0 / 0) = 0
+        [new("naturalNormal", 0.75, -0.5), {"op": "pow", "a": 0, "k": 0.0}, {"op": "meanx", "a": 1},
+         {"op": "logpdfx", "a": 1, "x": 0.3}, {"op": "meanx", "a": 0}],
+        [new("naturalNormal", [0.75, -1.0], [-0.5, -2.0]), {"op": "pow", "a": 0, "k": 0.0}, {"op": "meanx", "a": 1}],
+        [new("normal", 1.0, 2.0), {"op": "pow", "a": 0, "k": -1.0}, {"op": "logpdfx", "a": 1, "x": 0.3}, {"op": "meanx", "a": 1}],
+        # eta1 = 0 at the boundary of the support: 0 * log(0) is NaN, nan_to_num(nan=-inf)
+        [new("gamma", 1.0, 2.0), {"op": "logpdfx", "a": 0, "x": 0.0}, {"op": "logpdfx", "a": 0, "x": -1.0},
+         {"op": "logpdfx", "a": 0, "x": 0.5}, {"op": "logpartition", "a": 0}, {"op": "expstats", "a": 0}],
+        [new("gamma", 3.0, 0.5), {"op": "logpdfx", "a": 0, "x": 0.0}, {"op": "logpdfx", "a": 0, "x": 2.0}],
+        [new("gamma", 0.4, 0.5), {"op": "logpdfx", "a": 0, "x": 0.0}, {"op": "logpdfx", "a": 0, "x": 1e-300}],
+        [new("beta", 1.0, 1.0), {"op": "logpdfx", "a": 0, "x": 0.0}, {"op": "logpdfx", "a": 0, "x": 1.0},
+         {"op": "logpdfx", "a": 0, "x": 0.25}],
+        [new("beta", [2.5, 0.5], [0.7, 3.0]), {"op": "logpdfx", "a": 0, "x": [0.0, 1.0]}, {"op": "logpdfx", "a": 0, "x": [1.0, 0.0]},
+         {"op": "logpdfx", "a": 0, "x": [1.5, -0.5]}, {"op": "canon", "a": 0, "x": [0.25, 0.75]}, {"op": "expstats", "a": 0}],
+        [{"op": "invpsilog", "x": [-1e-4, -0.5, -30.0]}],
+        [{"op": "invbeta", "x": [-0.7, -2.0], "y": [-0.7, -0.2]}],
+        [{"op": "residual", "fam": "gamma", "m1": [-0.2, 1.0], "m2": [1.0, 3.0]}],
+        [{"op": "residual", "fam": "beta", "m1": [-0.7, -2.0], "m2": [-0.7, -0.2]}],
+        [{"op": "frommode", "fam": "gamma", "m": 2.0, "v": 0.25, "ln": 0.5, "id": fresh_id(), "lo": -INF, "hi": INF},
+         {"op": "mean", "a": 0}, {"op": "variance", "a": 0}, {"op": "natural", "a": 0}],
+        [{"op": "frommode", "fam": "normal", "m": [1.0, -2.0], "v": -0.25, "ln": 0.0, "id": fresh_id(), "lo": -3.0, "hi": 7.0},
+         {"op": "natural", "a": 0}],
+        [{"op": "frommode", "fam": "naturalNormal", "m": 1.5, "v": 0.25, "ln": 0.0, "id": fresh_id(), "lo": -INF, "hi": INF},
+         {"op": "natural", "a": 0}, {"op": "meanx", "a": 0}],
+    ]
+    return [{"prog": p} for p in progs]
+
+
+def gen_gb(rng):
+    """programs for the Gamma / Beta part of the model: densities inside, on the boundary of and outside the
+    support (np.nan_to_num), log-partition, sufficient statistics, expected statistics, the raw Newton inversions
+    over a wide range, from_sufficient_statistics with wide shape parameters, from_mode"""
+    prog = []
+    r = rng.random()
+    n = 0 if rng.random() < 0.6 else rng.choice([1, 2, 3])
+
+    def wide(lo, hi):
+        return round(math.exp(rng.uniform(math.log(lo), math.log(hi))), 4)
+
+    def many(f):
+        return f() if n == 0 else [f() for _ in range(n)]
+
+    if r < 0.12:
+        return gen_stacked(rng, n)
+    if r < 0.4:
+        fam = rng.choice(["gamma", "beta", "gamma", "beta", "normal", "naturalNormal"])
+        st = gen_new(rng, fam, n)
+        if fam in ("gamma", "beta") and rng.random() < 0.6:
+            st["p1"] = many(lambda: wide(0.05, 60))
+            st["p2"] = many(lambda: wide(0.05, 60))
+            if rng.random() < 0.2:
+                st["p1"] = many(lambda: 1.0)  # eta1 = 0: 0 * log(0) at the boundary
+        prog.append(st)
+        a = 0
+        if fam in ("normal", "naturalNormal") or rng.random() < 0.25:
+            # an invalid message (power outside the domain / negative shape): logpdf goes through nan_to_num
+            prog.append({"op": "pow", "a": 0, "k": rng.choice([-1.0, -0.5, 0.0, 2.0])})
+            a = 1
+        lo, hi = (0.0, 1.0) if fam == "beta" else ((0.0, 30.0) if fam == "gamma" else (-6.0, 6.0))
+        for _ in range(rng.choice([2, 3, 4])):
+            def pt():
+                u = rng.random()
+                if u < 0.5:
+                    return round(rng.uniform(lo, hi), 5)
+                if u < 0.7:
+                    return rng.choice([lo, hi]) if fam == "beta" else lo
+                if u < 0.85:
+                    return round(rng.uniform(lo - 3, lo), 4) if fam != "beta" else rng.choice([-0.5, 1.0, 1.5, 2.0])
+                return rng.choice([1e-300, 1e-12, 1 - 1e-12, 1e12]) if fam != "beta" else rng.choice([1e-300, 1e-12, 1 - 1e-12])
+            prog.append({"op": "logpdfx", "a": a, "x": many(pt)})
+        if fam in ("normal", "naturalNormal"):
+            prog.append({"op": "meanx", "a": a})  # NaturalNormal ** 0: nan_to_num(0 / 0) = 0
+            if rng.random() < 0.5:
+                prog.append({"op": "tnew", "b": a, "trs": variant_trs(rng, rng.choice(["shifted", "log", "log10"])), "id": None,
+                             "lo": -INF, "hi": INF})
+                prog.append({"op": "meanx", "a": len(prog) - 1})
+        if fam in ("gamma", "beta"):
+            prog.append({"op": "canon", "a": 0, "x": many(lambda: round(rng.uniform(lo + 1e-3, (hi if fam == "beta" else 9.0) - 1e-3), 5))})
+            prog.append({"op": "logpartition", "a": 0})
+            prog.append({"op": "expstats", "a": 0})
+            prog.append({"op": "mean", "a": 0})
+            prog.append({"op": "variance", "a": 0})
+    elif r < 0.55:
+        prog.append({"op": "invpsilog", "x": many(lambda: -wide(1e-4, 30))})
+    elif r < 0.7:
+        def stats_():
+            a, b = wide(0.8, 80), wide(0.8, 80)
+            pab = float(special.digamma(a + b))
+            return float(special.digamma(a)) - pab, float(special.digamma(b)) - pab
+        ss = [stats_() for _ in range(max(1, n))]
+        prog.append({"op": "invbeta", "x": ss[0][0] if n == 0 else [s_[0] for s_ in ss],
+                     "y": ss[0][1] if n == 0 else [s_[1] for s_ in ss]})
+    elif r < 0.85:
+        fam = rng.choice(["gamma", "beta"])
+        lo_ = 0.05 if fam == "gamma" else 0.8
+        p1, p2 = many(lambda: wide(lo_, 80)), many(lambda: wide(lo_, 80))
+        m = FAMS[fam](as_param(p1), as_param(p2))
+        s_ = expected_stats(m)
+        prog.append({"op": "fromsuff", "fam": fam, "m1": jf(s_[0]), "m2": jf(s_[1]), "ln": rfloat(rng, -2, 2), "id": fresh_id()})
+        prog.append({"op": "natural", "a": 0})
+        prog.append({"op": "expstats", "a": 0})
+        prog.append({"op": "residual", "fam": fam, "m1": jf(s_[0]), "m2": jf(s_[1])})
+    else:
+        fam = rng.choice(["gamma", "gamma", "normal", "naturalNormal"])
+        lims = rng.random() < 0.5
+        prog.append({"op": "frommode", "fam": fam,
+                     "m": many(lambda: wide(0.05, 20) if fam == "gamma" else rfloat(rng, -5, 5)),
+                     "v": wide(0.01, 9) * (-1 if fam == "normal" and rng.random() < 0.2 else 1), "ln": rfloat(rng, -2, 2),
+                     "id": fresh_id(), "lo": rfloat(rng, -20, -5) if lims else -INF, "hi": rfloat(rng, 5, 20) if lims else INF})
+        prog.append({"op": "natural", "a": 0})
+        prog.append({"op": "mean", "a": 0})
+        prog.append({"op": "variance", "a": 0})
+    return {"prog": prog}
+
+
+
+# ---------------------------------------------------------------------------------------------
 # one case
 
 
@@ -1296,7 +1783,11 @@ def one_case(ctx, case, label="gen", budget=None):
         rec = Rec()
         with np.errstate(all="ignore"):
             fill_tables(rec, prog, regs, first, shape, i)
+            fill_tables_gb(rec, prog, regs, first, shape, i)
         mp = model_prog(prog, regs, first, shape, i)
+        for d_ in mp:
+            if d_["op"] in ("fromsuffx", "projectx", "mprojectx"):
+                ctx.hit("model:gamma-beta-inversion-in-model")
         ans = ctx.lean.ask({"p": "C17", "tables": rec.wire(), "prog": mp})
         if "driver_error" in ans:
             ctx.disagree("C17.driver", case, None, ans)
@@ -1320,6 +1811,8 @@ def one_case(ctx, case, label="gen", budget=None):
                     v = bool(v[i]) if v.size == size and size > 1 else bool(v.all())
                     if v != mo.get("v"):
                         ctx.disagree("C17.valid", case, {"reg": r_i, "elem": i, "impl": v}, mo)
+                elif kind == "pair" and stmt_of_reg(prog, first, r_i)["op"] in GB_OPS:
+                    cmp_gb(ctx, case, stmt_of_reg(prog, first, r_i), r, mo, r_i, shape, i, scale)
                 elif kind == "pair":
                     e = np.asarray(val, dtype=float)
                     a = elem(e[0], shape, i)
@@ -1328,11 +1821,14 @@ def one_case(ctx, case, label="gen", budget=None):
                         ctx.disagree("C17.natural", case, {"reg": r_i, "elem": i, "impl": jf(e)}, mo)
                 else:
                     st = stmt_of_reg(prog, first, r_i)
+                    if st["op"] in GB_OPS:
+                        cmp_gb(ctx, case, st, r, mo, r_i, shape, i, scale)
+                        continue
                     src = regs[st["a"]]
                     if not is_valid(src) or fam_of(src) in ("fixed", "other"):
                         continue
-                    if st["op"] in ("logpdf", "factor", "cdf", "valuefor") and fam_of(src) not in ("normal", "naturalNormal"):
-                        continue  # densities of gamma / beta are not modelled (oracle only)
+                    if st["op"] in ("factor", "cdf", "valuefor") and fam_of(src) not in ("normal", "naturalNormal"):
+                        continue  # gamma / beta: only logpdf exists (AFModel/MsgGB.lean)
                     if st["op"] == "variance" and isinstance(src, TransformedMessage) and any(canon_tr(t)["t"] == "phi" for t in src.transforms):
                         with np.errstate(all="ignore"):
                             mu_v = np.asarray(base_of(src).mean, dtype=float)
@@ -1353,6 +1849,7 @@ def one_case(ctx, case, label="gen", budget=None):
     oracle_queries(ctx, case, prog, regs, first, scale)
     oracle_density(ctx, case, prog, regs, first, budget)
     oracle_priors(ctx, case, prog, regs, first)
+    oracle_stacked(ctx, case, prog, regs, first)
 
 
 def stmt_of_reg(prog, first, r_i):
@@ -1791,8 +2288,11 @@ def run(ctx):
         "scipy's ndtr / ndtri / erfinv / norm_pdf are trusted: the model receives their values as tables; "
         "normalisation, CDF, mean and variance of the reported densities are checked by quadrature (numerical test, "
         "not a proof) except for the normal density, which is proved equal to Mathlib's gaussianPDFReal",
-        "densities of gamma / beta, the digamma inversions and array broadcasting between operands of different "
-        "shapes are not modelled (oracle / numerical test only)",
+        "gamma / beta densities, the Newton inversions of the digamma equations (invpsilog, inv_beta_suffstats), "
+        "from_mode and stacked transformed messages run in the model and are compared; gammaln / digamma / polygamma reach "
+        "the model as (argument, value, derivative) tables; convergence of the Newton iterations is not proved (oracle at "
+        "1e-5); a two-element message combined with a scalar message is modelled as the code behaves (known finding), other "
+        "shape combinations are not modelled (oracle only)",
     ]
     ctx.notes["numerical_tests"] = 0
     budget = [ctx.n(70, 2500)]
@@ -1809,6 +2309,11 @@ def run(ctx):
         else:
             case = gen_moments(ctx.rng)
             one_case(ctx, case, label="moments", budget=budget)
+    mixed_shape_model(ctx, ctx.n(8, 200))
+    for case in gb_pinned():
+        one_case(ctx, case, label="gamma-beta-pinned", budget=budget)
+    for k in range(ctx.n(120, 5000)):
+        one_case(ctx, gen_gb(ctx.rng), label="gamma-beta", budget=budget)
     element_assignment(ctx, ctx.n(40, 600))
 
 
@@ -1866,5 +2371,7 @@ def replay(ctx, payload):
     case = payload.get("case") or payload.get("disagreements", [{}])[0].get("case")
     if case.get("kind") == "element-assignment":
         return element_assignment(ctx, 40)
+    if case.get("kind") == "mixed-shape":
+        return mixed_shape_model(ctx, 8)
     one_case(ctx, case, label="replay")
     print(json.dumps({"failures": ctx.failures[:3], "disagreements": ctx.disagreements[:3]}, default=str)[:3000])
